@@ -929,6 +929,9 @@ func genFlags(r *hx.Rng) string {
 // balance in the middle; sometimes escrow entries due at this height and a reward group.
 func genScenario(r *hx.Rng, i int, allowOpaque bool) *Scenario {
 	sc := &Scenario{Name: fmt.Sprintf("gen-%d", i), Height: uint64(20 + r.Intn(1000)), Flags: genFlags(r), P026: r.Bool(), P004: r.Chance(1, 10)}
+	if r.Chance(1, 8) { // reward-period and epoch boundaries (NextRewardHeight = ceil(h/n)*n)
+		sc.Height = common.GetRewardBlocks()*uint64(1+r.Intn(3)) + uint64(r.Intn(3)) - 1
+	}
 	fee := feeOf(sc)
 	na := 1 + r.Intn(4)
 	bals := map[string]*big.Int{}
@@ -1098,7 +1101,18 @@ func genScenario(r *hx.Rng, i int, allowOpaque bool) *Scenario {
 		np := r.Pick(0, 1, 2, 3, 5)
 		for k := 0; k < np; k++ {
 			acct := poolAddrs[r.Intn(len(poolAddrs))]
-			m := MinerS{Id: fmt.Sprintf("a%03d", k) + "00", Type: 1, Stake: uint64(2000 * (1 + r.Intn(5))), Account: acct,
+			stake := uint64(2000 * (1 + r.Intn(5)))
+			switch r.Intn(10) { // float64(uint64) rounding boundaries, thirds
+			case 0:
+				stake = 9007199254740993 // 2^53 + 1: not representable, rounds to even
+			case 1:
+				stake = 9007199254740995
+			case 2:
+				stake = 1152921504606846977 // 2^60 + 1
+			case 3:
+				stake = 2001
+			}
+			m := MinerS{Id: fmt.Sprintf("a%03d", k) + "00", Type: 1, Stake: stake, Account: acct,
 				ApplyHeight: uint64(r.Pick(0, 0, 0, int(sc.Height), int(sc.Height)+1)), Status: byte(r.Pick(0, 0, 0, 0, 2))}
 			sc.Miners = append(sc.Miners, m)
 		}
@@ -2058,6 +2072,34 @@ func concurrentBatch(r *hx.Rng, k, rounds int, report func(sc *Scenario, res map
 
 var concDiff bool
 
+
+// smallScopeFamily: deterministic, runs before anything random.  One funded sender, every pair of
+// target keys out of {self, SELF in another spelling, other, other without prefix} with every pair
+// of amounts out of {0, 5, 8, everything, everything + 1 wei}.
+func smallScopeFamily() []*Scenario {
+	aa, bb := poolAddrs[0], poolAddrs[1]
+	bal := new(big.Int).Add(e18(10), big.NewInt(1e15)) // 10 RPG + the fee
+	keys := []string{"0x" + aa, "0X" + strings.ToUpper(aa), "0x" + bb, bb}
+	amts := []string{"0", "5", "8", "10", "10.000000000000000001"}
+	var res []*Scenario
+	n := 0
+	for i := 0; i < len(keys); i++ {
+		for j := i + 1; j < len(keys); j++ {
+			for _, x := range amts {
+				for _, y := range amts {
+					n++
+					extra := fmt.Sprintf(`{"%s":{"balance":"%s"},"%s":{"balance":"%s"}}`, keys[i], x, keys[j], y)
+					h := common.Sha256([]byte(extra))
+					res = append(res, &Scenario{Name: fmt.Sprintf("small-%d", n), Height: 100, Flags: "111111", P026: true,
+						Accounts: []Acct{{aa, bal.String(), 0}},
+						Txs:      []TxS{{Source: "0x" + aa, Type: 100, Hash: hex.EncodeToString(h), Extra: extra}}})
+				}
+			}
+		}
+	}
+	return res
+}
+
 func search(a map[string]string, r *hx.Rng) {
 	n := hx.ArgInt(a, "n", 64)
 	cases := hx.ArgInt(a, "cases", 150)
@@ -2093,6 +2135,17 @@ func search(a map[string]string, r *hx.Rng) {
 	for _, sc := range leadScenarios() {
 		res := nfold(sc, n)
 		evals += n
+		distinct[sc.Name] = true
+		report(sc, res)
+	}
+	// 1b. the deterministic small-scope family (fewer repetitions each: 150 scenarios)
+	nSmall := n
+	if nSmall > 16 {
+		nSmall = 16
+	}
+	for _, sc := range smallScopeFamily() {
+		res := nfold(sc, nSmall)
+		evals += nSmall
 		distinct[sc.Name] = true
 		report(sc, res)
 	}
